@@ -8,8 +8,8 @@
    Part 5  the system theorems *)
 From V Require Import Base Base_proofs Validators SystemAll.
 From V Require ProxyCore ProxyCore_proofs ProxyWorld_proofs ProxyAll ProxyAll_proofs Callback Callback_proofs.
-From V Require AuthAll AuthAll_proofs AuthBack AuthBack_proofs AuthFlow AuthFlow_proofs AuthGates Url ReqHeaders Hostmux ReqUri RespHeaders.
-From Coq Require Import ZifyBool ZifyN.
+From V Require AuthAll AuthAll_proofs AuthBack AuthBack_proofs AuthFlow AuthFlow_proofs AuthGates AuthGates_proofs Url ReqHeaders Hostmux ReqUri RespHeaders.
+From Coq Require Import ZifyBool ZifyN ZifyNat.
 Require Coq.Strings.String.
 Import Coq.Strings.String.StringSyntax.
 Local Open Scope Z_scope.
@@ -206,6 +206,7 @@ Lemma auth_set_cases st q x sc s :
   (is_login sd st q = true /\ A.r_sess_ops (aresp st q x sc) = [F.OpSet s] /\
    F.s_lifetime s = st_now st + A.d_lifetime da /\ F.s_email s <> [] /\
    F.rule_passes lower (A.fcfg da) (F.s_email s) = true /\
+   A.r_calls (aresp st q x sc) = [A.CIdp (F.CallRedeem (B.form_get B.k_code (fst (B.compute_form (A.inner q A.p_callback)))))] /\
    exists ts, AP.idp_vouched (auth_kind sd st q) (auth_answers sd st q sc)
                 (B.form_get B.k_code (fst (B.compute_form (A.inner q A.p_callback)))) ts /\
               T.s_email ts = F.s_email s) \/
@@ -218,12 +219,12 @@ Proof.
   destruct (AP.login_end_to_end lower da q (a_oracles sd st x) (auth_answers sd st q sc) (now_ns st) s Hin)
     as [slug [k [[Hr H]|[Hr H]]]].
   - left. cbv zeta in H. destruct H as [_ H].
-    destruct H as (nonce & redirect & ts & _ & _ & _ & _ & _ & _ & Hrd & Hv & Hrule & Hs & _ & _ & Hops & _).
+    destruct H as (nonce & redirect & ts & _ & _ & _ & _ & _ & _ & Hrd & Hv & Hrule & Hs & _ & _ & Hops & _ & Hcalls).
     rewrite now_s_of in Hs.
     assert (Hk : auth_kind sd st q = k) by (unfold auth_kind; rewrite (routed_presented st q slug k _ Hr); reflexivity).
     split. { unfold is_login. rewrite (routed_presented st q slug k _ Hr). apply str_eqb_refl. }
     split; [exact Hops|]. subst s. cbn [F.redeemed_session F.s_lifetime F.s_email].
-    split; [reflexivity|]. pose proof Hv as [_ [Hne _]]. split; [exact Hne|]. split; [exact Hrule|].
+    split; [reflexivity|]. pose proof Hv as [_ [Hne _]]. split; [exact Hne|]. split; [exact Hrule|]. split; [exact Hcalls|].
     exists ts. rewrite Hk. split; [exact Hv | reflexivity].
   - right. destruct H as [c [s0 [Hl [Ho [Hlt [He [_ [Hlf _]]]]]]]]. rewrite now_s_of in Hlt.
     destruct (loaded_cookie st q x slug k _ c s0 Hwf Hr Hl Ho) as [a [Hp [Hia [Hs _]]]].
@@ -742,7 +743,7 @@ Proof.
     destruct (sets_of (A.r_sess_ops r)) as [|s ss] eqn:Es; [constructor|].
     constructor; [|constructor].
     assert (Hin : In (F.OpSet s) (A.r_sess_ops r)) by (apply sets_of_in; rewrite Es; left; reflexivity).
-    destruct (Hset s Hwf Hin) as [[_ [_ [_ [Hne [Hrule [ts [Hv Hem]]]]]]]|[Hl' _]]; [|congruence].
+    destruct (Hset s Hwf Hin) as [[_ [_ [_ [Hne [Hrule [_ [ts [Hv Hem]]]]]]]]|[Hl' _]]; [|congruence].
     unfold vouch_ok. cbn [vr_email vr_kind vr_an vr_idp_code]. split; [exists ts; split; assumption|]. split; assumption.
   - (* authenticator cookies *)
     unfold st' at 2. unfold auth_step. cbn [fst st_a]. fold r.
@@ -1725,3 +1726,106 @@ Proof.
 Qed.
 
 End NoGrace.
+
+(* ================================================================================================ *)
+(* Part 11 — names: the k-th sealed value of a kind is called  tag :: decimal k, so an issued value opens to
+   exactly the record it was issued with (the direction the safety theorems do not need) *)
+
+Lemma name_inj tag k1 k2 : name tag k1 = name tag k2 -> k1 = k2.
+Proof.
+  unfold name. intros H. inversion H as [Hd].
+  apply AuthGates_proofs.dec_inj_nonneg in Hd; lia.
+Qed.
+
+Section Named.
+Context {X : Type}.
+Variable tag : N.
+Variable val : X -> str.
+
+Definition named_from (off : nat) (l : list X) : Prop :=
+  forall k x, nth_error l k = Some x -> val x = name tag (off + k).
+Definition named (l : list X) : Prop := named_from 0 l.
+
+Lemma named_tail off y l : named_from off (y :: l) -> named_from (S off) l.
+Proof. intros H k x Hk. specialize (H (S k) x Hk). rewrite H. f_equal. lia. Qed.
+
+Lemma find_named_from : forall l off x, named_from off l -> In x l ->
+  find (fun r => str_eqb (val r) (val x)) l = Some x.
+Proof.
+  induction l as [|y l IH]; intros off x Hn Hin; [destruct Hin|].
+  cbn [find]. destruct (str_eqb (val y) (val x)) eqn:E.
+  - destruct Hin as [->|Hin]; [reflexivity|]. exfalso.
+    apply str_eqb_eq in E. apply In_nth_error in Hin as [k Hk].
+    pose proof (Hn 0%nat y eq_refl) as H0. pose proof (Hn (S k) x Hk) as H1.
+    rewrite E, H1 in H0. apply name_inj in H0. lia.
+  - destruct Hin as [->|Hin]; [rewrite str_eqb_refl in E; discriminate|].
+    eapply IH; [eapply named_tail; exact Hn | exact Hin].
+Qed.
+
+Lemma find_named l x : named l -> In x l -> find (fun r => str_eqb (val r) (val x)) l = Some x.
+Proof. apply find_named_from. Qed.
+
+Lemma named_app l x : named l -> val x = name tag (length l) -> named (l ++ [x]).
+Proof.
+  intros Hn Hx k y Hk. destruct (Nat.lt_ge_cases k (length l)) as [Hlt|Hge].
+  - rewrite nth_error_app1 in Hk by exact Hlt. exact (Hn k y Hk).
+  - rewrite nth_error_app2 in Hk by exact Hge.
+    destruct (k - length l)%nat as [|j] eqn:Ej; cbn in Hk; [|destruct j; discriminate].
+    inversion Hk; subst y. rewrite Hx. cbn. f_equal. lia.
+Qed.
+
+End Named.
+
+Definition Names (st : state) : Prop :=
+  named tag_p pr_val (st_p st) /\ named tag_a ar_val (st_a st) /\ named tag_c cr_val (st_c st) /\ named tag_s mr_val (st_m st).
+
+Lemma names_init t0 : Names (init t0).
+Proof. unfold Names, named, named_from, init. cbn. repeat split; intros k x H; destruct k; discriminate. Qed.
+
+Lemma add_cookies_named slug g now : forall ss l, named tag_a ar_val l -> named tag_a ar_val (add_cookies l slug g now ss).
+Proof.
+  induction ss as [|s ss IH]; intros l Hl; cbn [add_cookies]; [exact Hl|].
+  apply IH. apply named_app; [exact Hl | reflexivity].
+Qed.
+
+Section NamesStep.
+Variable re_match : str -> str -> bool.
+Variable re_replace : str -> str -> str -> str.
+Variable lower : str -> str.
+Variable sd : sysdep.
+
+Lemma names_step st e : Names st -> Names (fst (SystemAll.step re_match re_replace lower sd st e)).
+Proof.
+  intros (Hp & Ha & Hc & Hm). destruct e as [dt|c|q bk lk sc|q x sc]; cbn [SystemAll.step].
+  - cbn. repeat split; assumption.
+  - cbn. repeat split; assumption.
+  - unfold proxy_step. cbn [fst]. unfold Names. cbn [st_p st_a st_c st_m].
+    split; [|split; [exact Ha|split; [exact Hc|]]].
+    + destruct (new_prec _ _ _ _ _) as [r|] eqn:En; [|exact Hp]. apply named_app; [exact Hp|].
+      unfold new_prec in En. destruct (P.oc_session _); try discriminate. destruct (P.oc_upstream _); try discriminate.
+      destruct (is_callback q); [inversion En; reflexivity|]. destruct (presented_p sd st q); [|discriminate]. inversion En; reflexivity.
+    + destruct (new_mrec _ _ _ _) as [m|] eqn:En; [|exact Hm]. apply named_app; [exact Hm|].
+      unfold new_mrec in En. destruct (P.oc_loc _); try discriminate; inversion En; reflexivity.
+  - destruct (auth_step lower sd st q x sc) as [st1 o] eqn:E. unfold auth_step in E. inversion E; subst. cbn [fst].
+    unfold Names. cbn [st_p st_a st_c st_m].
+    split; [exact Hp|]. split; [apply add_cookies_named; exact Ha|]. split; [|exact Hm].
+    unfold new_crecs. destruct (A.r_loc _); try (rewrite app_nil_r; exact Hc). apply named_app; [exact Hc | reflexivity].
+Qed.
+
+Lemma run_names : forall evs st st' tr, SystemAll.run re_match re_replace lower sd st evs = (st', tr) -> Names st ->
+  Names st' /\ forall s e o, In (s, e, o) tr -> Names s.
+Proof.
+  induction evs as [|e evs IH]; intros st st' tr Hr Hn; cbn [SystemAll.run] in Hr.
+  - inversion Hr; subst. split; [exact Hn|]. intros s e o [].
+  - destruct (SystemAll.step re_match re_replace lower sd st e) as [st1 o1] eqn:E1.
+    destruct (SystemAll.run re_match re_replace lower sd st1 evs) as [st2 tr2] eqn:E2. inversion Hr; subst.
+    pose proof (names_step st e Hn) as Hn1. rewrite E1 in Hn1. cbn [fst] in Hn1.
+    destruct (IH st1 st' tr2 E2 Hn1) as [H1 H2]. split; [exact H1|].
+    intros s e0 o [Heq|Hin]; [inversion Heq; subst; exact Hn | exact (H2 s e0 o Hin)].
+Qed.
+
+End NamesStep.
+
+(* an issued code is found under its own name *)
+Lemma find_c_named st c : Names st -> In c (st_c st) -> find_c st (cr_val c) = Some c.
+Proof. intros (_ & _ & Hc & _) Hin. unfold find_c. apply (find_named tag_c cr_val); assumption. Qed.
